@@ -30,7 +30,7 @@ func versionGrid() []string {
 
 func checkC18(c *Ctx) error {
 	grid := versionGrid()
-	c.Rule = fmt.Sprintf("binaries linked with -X main.version=B for B from the grid majors {0,1,2,3,10} x minors {0,1,2,3,9,10,12,100} x patches {0,7} x {release, -rc.1, +b5} (%d versions; thorough: all, plain and v-prefixed; quick: seeded sample of 36 + fixed corner builds) plus non-semantic builds (unset, devel, dev-main, v, vX) x every declared version V of the same grid (quoted and unquoted YAML) plus absent V plus malformed V (v-prefixed, 4 components, leading zeros, letters, empty, int, float, bool, list, null). plus 2-3 input files declaring different versions (the last file that declares one decides). Oracle: the truth table of the statement (engine/ref.VersionGate); verdicts are read from the exit status and the failing step (gate rejections fail in Compile, unparsable versions fail in Read config). distinct = distinct (B, V) pair; non-trivial = B is a semantic version and V is declared", len(grid))
+	c.Rule = fmt.Sprintf("binaries linked with -X main.version=B (a third also stamped as built from a dirty tree, a third from a clean one, with commit, date and builder; every B with build metadata is stamped dirty) for B from the grid majors {0,1,2,3,10} x minors {0,1,2,3,9,10,12,100} x patches {0,7} x {release, -rc.1, +b5} (%d versions; thorough: all, plain and v-prefixed; quick: seeded sample of 36 + fixed corner builds) plus non-semantic builds (unset, devel, dev-main, v, vX) x every declared version V of the same grid (quoted and unquoted YAML) plus absent V plus malformed V (v-prefixed, 4 components, leading zeros, letters, empty, int, float, bool, list, null). plus 2-3 input files declaring different versions (the last file that declares one decides). Oracle: the truth table of the statement (engine/ref.VersionGate); verdicts are read from the exit status and the failing step (gate rejections fail in Compile, unparsable versions fail in Read config). distinct = distinct (B, V) pair; non-trivial = B is a semantic version and V is declared", len(grid))
 	c.Assumptions = []string{"`-X main.version=B` is how release builds carry their version (Makefile, main.go)", "two-component shorthand versions (\"1.2\") are not judged: semver.org and the Go library disagree"}
 	w := c.W
 	var builds []string
@@ -59,6 +59,15 @@ func checkC18(c *Ctx) error {
 		if builds[i] != "" {
 			ld = "-X main.version=" + builds[i]
 		}
+		// the other stamps of a real build (Makefile / goreleaser): a dirty or clean tree, commit, date, builder. They are not
+		// part of the version: the verdict is the one of B alone
+		switch {
+		case i%3 == 1 || strings.Contains(builds[i], "+"):
+			ld += " -X main.isGitDirty=true -X main.commit=0123456789abcdef0123456789abcdef01234567 -X main.date=2026-01-02T03:04:05Z -X main.builtBy=make4.3"
+		case i%3 == 2:
+			ld += " -X main.isGitDirty=false -X main.commit=0123456789abcdef0123456789abcdef01234567 -X main.date=2026-01-02T03:04:05 -X main.builtBy=goreleaser"
+		}
+		ld = strings.TrimSpace(ld)
 		if err := w.BuildTool(bins[i], ld, "", false); err != nil {
 			berr = err
 		}
